@@ -826,7 +826,8 @@ void check(const Case &c, const vsim::RunResult &)
     if (!any)
       streams.push_back({instr_name(i), i, direct ? (int)c.knob("filter0", kAllKeys) : kAllKeys, -1});
   }
-  // handles: which was the latest created per instrument (duplicate-handle known finding)
+  // handles: which was the latest created per instrument (a loss explained by the
+  // duplicate-handle defect F5b, fixed in the tree, is named as such if it ever returns)
   std::vector<int> latest_handle(ninstr, 0);
   bool dup_handles = false;
   for (auto &e : hist())
@@ -880,9 +881,9 @@ void check(const Case &c, const vsim::RunResult &)
         std::set<int64_t> in_this;  // digits contained in this report
         if (rep)
         {
-          // ---- timestamps (a second handle for the instrument starts a fresh storage: the
-          // interval checks are meaningless there, see the duplicate-handle known finding)
-          bool ts_checks = !(dup_handles && latest_handle[st.instr] != 0);
+          // ---- timestamps (all handles of an instrument share the stream's storage, so the
+          // interval checks hold whatever number of handles was created)
+          const bool ts_checks = true;
           if ((rep->temporality == 2) != (temp == 1))
             report_for(c, "C06.temporality", fmt("reader %d: wrong temporality reported", r));
           if (!ts_checks)
@@ -1325,7 +1326,7 @@ void generate(const std::string &prop, Rng &wl, Rng &fl, Case &c)
     if (!targeted)
       c.set("second_meter", 1);  // views select meter "m" only
   }
-  bool dup = prop == "C06" && !direct && wl.chance(0.1);
+  bool dup = !direct && wl.chance(prop == "C06" ? 0.15 : 0.08);
   if (dup)
     stratum = "duplicate_handle";
   if (!direct && !dup && prop != "C08" && wl.chance(0.2))
@@ -1443,7 +1444,7 @@ const EngineDesc g_engine = {
     "values (int64, string, bool, double, int64 array, string array) passed in a per-call key order with overwritten duplicates; counter measurement k "
     "adds +-4^k so each reported sum decodes into the measurements it contains; C08 also drives "
     "SyncMetricStorage directly with limits 2-6; a minority stratum creates a second handle for "
-    "an instrument (known finding); scheduler faults: task stalls and system clock jumps; "
+    "an instrument while recorders and collectors run; scheduler faults: task stalls and system clock jumps; "
     "distinct = distinct (workload hash, trace hash); non-trivial = >= 2 tasks and >= 1 context "
     "switch while a task was inside Add/Record/Collect. Attribute and value spaces are sampled "
     "by the generator, not searched."};
